@@ -19,6 +19,39 @@ def dump_blocks(path, skip_substr=None):
     return blocks
 
 
+def iter_blocks(path, skip_substr=None):
+    """the states of a TLC dump one after the other, without holding the file in memory"""
+    cur = []
+    with open(path, encoding='utf-8') as fh:
+        for line in fh:
+            if _STATE.match(line):
+                if cur:
+                    b = ''.join(cur)
+                    if b.strip() and not (skip_substr and skip_substr in b):
+                        yield b
+                cur = []
+            else:
+                cur.append(line)
+    if cur:
+        b = ''.join(cur)
+        if b.strip() and not (skip_substr and skip_substr in b):
+            yield b
+
+
+def sample_blocks(path, k, rng, skip_substr=None):
+    """reservoir sample of k states of a dump (every state equally likely), streamed"""
+    res, n = [], 0
+    for b in iter_blocks(path, skip_substr):
+        n += 1
+        if len(res) < k:
+            res.append(b)
+        else:
+            j = rng.randrange(n)
+            if j < k:
+                res[j] = b
+    return res, n
+
+
 def parse_block(block):
     parts = _VAR.split(block)
     return {parts[i]: parse_value(parts[i + 1]) for i in range(1, len(parts), 2)}
